@@ -303,6 +303,13 @@ func NewEthashEpoch(epoch uint64) *Ethash {
 	return NewEthash(EthCacheSize(epoch), EthFullSize(epoch), EthSeed(epoch))
 }
 
+// DatasetItem is the spec's calc_dataset_item(cache, i) as 64 bytes: item i of
+// the full (mining) dataset of this evaluator's epoch.
+func (e *Ethash) DatasetItem(i uint32) []byte { return e.datasetItem(i).bytes() }
+
+// Items is the number of 64-byte items of the full dataset.
+func (e *Ethash) Items() uint32 { return uint32(e.fullSize / ethHashBytes) }
+
 func (e *Ethash) datasetItem(i uint32) row {
 	n := uint32(len(e.cache))
 	mix := e.cache[i%n]
